@@ -970,6 +970,20 @@ impl<'a, 'b, 'ast> Visit<'ast> for BodyV<'a, 'b> {
             self.handle_format(mac, whole);
             return;
         }
+        if name == "futures::ready" || name == "ready" {
+            // R22: futures::ready!(E) -> (match E { Poll::Ready(t) => t, Poll::Pending => return Poll::Pending })
+            // (its definition, written out so that the woven ghost arguments inside E are
+            // seen by the verus! macro)
+            if let Ok(args) = mac.parse_body_with(Punctuated::<Expr, Token![,]>::parse_terminated) {
+                if args.len() == 1 {
+                    let a = range_of(&args[0]);
+                    self.fc.edit(whole.0, a.0, "(match ", "R22.ready");
+                    self.fc.edit(a.1, whole.1, " { crate::shims::std::task::Poll::Ready(__t) => __t, crate::shims::std::task::Poll::Pending => return crate::shims::std::task::Poll::Pending })", "R22.ready");
+                    self.visit_expr(&args[0]);
+                    return;
+                }
+            }
+        }
         if let Some(newname) = self.fc.cfg.macro_map.get(&name).cloned() {
             let pr = range_of(&mac.path);
             self.fc.edit(pr.0, pr.1, newname, "R1.macro");
